@@ -9,8 +9,8 @@ CONSTANT Tier
 
 P(k) == Dec(k * SCALE, "plain")
 
-AF == FeeInfo("askfee1", Dec(5000, "plain"))       \* 0.5
-BF == FeeInfo("bidfee1", Dec(2500, "plain"))       \* 0.25
+AF == FeeInfo("askfee1", Dec(500000, "plain"))     \* 0.5
+BF == FeeInfo("bidfee1", Dec(250000, "plain"))     \* 0.25
 Cfgs == {InstMsg("ats", "base", <<"cv1">>, <<"q1">>, <<"appr1">>, <<"exec1">>, AF, BF, <<>>, <<>>, 0, 1)}
 
 Kinds == {"restricted", "coin", "none"}
